@@ -695,6 +695,119 @@ Definition read_crashpad_info (e : endian) (all b : bytes) : M (Z * (Z * Z)) :=
       ret (simple, ml)
   else lift (Err EStreamReadFailure).
 
+(* ---- round 3: the remaining fixed-layout streams *)
+Definition some01 {A} (o : option A) : Z := match o with Some _ => 1 | None => 0 end.
+(* MinidumpSystemInfo::read beyond the fixed record: csd_version via read_string_utf16 at an RVA of
+   the file (Option), cpu_info only for x86 / x86-64 / arm *)
+Definition sysinfo_strings (p : profile) (e : endian) (all b : bytes) : res (Z * Z) :=
+  if can_read b 0 FSZ_SYSINFO then
+    rbind (read_string_utf16 p e all (val e (sub b 24 4))) (fun csd =>
+    let arch := val e (sub b 0 2) in
+    Ok (some01 csd, if (arch =? 0) || (arch =? 10) || (arch =? 9) || (arch =? 5) then 1 else 0))
+  else Err EStreamReadFailure.
+(* utf16_to_string over a fixed [u16; n] buffer: the units before the first NUL, strict UTF-16 *)
+Fixpoint take_nonzero (l : list Z) : list Z :=
+  match l with [] => [] | u :: t => if u =? 0 then [] else u :: take_nonzero t end.
+Definition fixed_utf16 (e : endian) (buf : bytes) : Z := if utf16_ok (take_nonzero (units e buf)) then 1 else 0.
+Definition FSZ_ASSERTION := 776.
+Definition read_assertion (e : endian) (b : bytes) : res (Z * (Z * Z)) :=
+  if can_read b 0 FSZ_ASSERTION then
+    Ok (fixed_utf16 e (sub b 0 256), (fixed_utf16 e (sub b 256 256), fixed_utf16 e (sub b 512 256)))
+  else Err EStreamReadFailure.
+(* breakpad info: validity bits select the two thread ids *)
+Definition read_breakpad_info (e : endian) (b : bytes) : res (Z * Z) :=
+  if can_read b 0 12 then
+    let v := val e (sub b 0 4) in Ok (if Z.testbit v 0 then 1 else 0, if Z.testbit v 1 then 1 else 0)
+  else Err EStreamReadFailure.
+(* mac bootargs: u32 stream type, RVA64 of a UTF-16 string of the file *)
+Definition read_mac_bootargs (p : profile) (e : endian) (all b : bytes) : res Z :=
+  if can_read b 0 12 then rbind (read_string_utf16 p e all (val e (sub b 4 8))) (fun s => Ok (some01 s))
+  else Err EStreamReadFailure.
+(* MozSoftErrors: the stream must be UTF-8 *)
+Definition read_soft_errors (b : bytes) : res Z := if utf8_ok b then Ok (blen b) else Err EDataError.
+
+(* mac crash info: header (stream type, record_count, record_start_size, 20 locations); the first
+   min(record_count, 20) records are read; all must carry one version; version >= 5 / >= 4 / >= 1
+   selects a fixed part of 40 / 32 / 16 bytes and 5 / 5 / 0 C strings starting at record_start_size *)
+Definition PANIC_MAC_SET_STRING : Z := 110.   (* set_string(idx) with idx >= num_strings *)
+Definition mac_cstring (p : profile) (b : bytes) (off : Z) : res (option Z) :=
+  rbind (read_cstring_utf8 p b off) (fun r =>
+  match r with Some (s, o) => if utf8_ok s then Ok (Some o) else Ok None | None => Ok None end).
+(* `for i in 0..num_strings { read_cstring_utf8; strings.set_string(i, ..) }` *)
+Fixpoint mac_strings (p : profile) (n : nat) (i num : Z) (b : bytes) (off : Z) : res bool :=
+  match n with
+  | O => Ok true
+  | S n' =>
+      rbind (mac_cstring p b off) (fun r =>
+      match r with
+      | None => Ok false
+      | Some o => if i <? num then mac_strings p n' (i + 1) num b o else Pan PANIC_MAC_SET_STRING
+      end)
+  end.
+Definition mac_layout (version : Z) : option (Z * Z) :=
+  if 5 <=? version then Some (40, 5) else if 4 <=? version then Some (32, 5) else if 1 <=? version then Some (16, 0) else None.
+Fixpoint mac_records (p : profile) (e : endian) (all : bytes) (strings_off : Z) (locs : list (Z * Z))
+                     (prev : option Z) (acc : Z) : res Z :=
+  match locs with
+  | [] => Ok acc
+  | (size, rva) :: t =>
+      match location_slice all size rva with
+      | None => Err EStreamReadFailure
+      | Some r =>
+          if can_read r 0 16 then
+            let version := val e (sub r 8 8) in
+            if match prev with Some v => negb (v =? version) | None => false end then Err EVersionMismatch
+            else match mac_layout version with
+                 | None => mac_records p e all strings_off t (Some version) acc
+                 | Some (fixed, num) =>
+                     if can_read r 0 fixed then
+                       if fixed >? strings_off then Err EStreamReadFailure
+                       else rbind (mac_strings p (Z.to_nat num) 0 num r strings_off) (fun ok =>
+                            if ok then mac_records p e all strings_off t (Some version) (acc + 1)
+                            else Err EStreamReadFailure)
+                     else Err EStreamReadFailure
+                 end
+          else Err EStreamReadFailure
+      end
+  end.
+Definition FSZ_MAC_CRASH := 172.
+Definition mac_locs (e : endian) (b : bytes) (n : Z) : list (Z * Z) :=
+  map (fun i => (val e (sub b (12 + 8 * Z.of_nat i) 4), val e (sub b (16 + 8 * Z.of_nat i) 4))) (seq 0 (Z.to_nat (Z.min n 20))).
+Definition read_mac_crash_info (p : profile) (e : endian) (all b : bytes) : res Z :=
+  if can_read b 0 FSZ_MAC_CRASH then
+    mac_records p e all (val e (sub b 8 4)) (mac_locs e b (val e (sub b 4 4))) None 0
+  else Err EStreamReadFailure.
+
+(* ---- print routines: the data-dependent sites (minidump.rs has no other unwrap / index / unchecked
+   arithmetic on file data outside the sites modelled above; see design/C01.md for the audit) *)
+(* MinidumpThread::print: `stack.bytes().chunks_exact(chunk_size)` then `chunk.try_into().unwrap()`
+   into [u8; 4] (Bits32) or [u8; 8] (Bits64 | Unknown); chunk_size = pointer width or 8 *)
+Inductive ptr_width := Bits32 | Bits64 | BitsUnknown.
+Definition PANIC_CHUNK_UNWRAP : Z := 111.
+Definition PANIC_PRINT_OFFSET : Z := 112.
+Definition chunk_size (w : ptr_width) : Z := match w with Bits32 => 4 | Bits64 => 8 | BitsUnknown => 8 end.
+Definition array_len (w : ptr_width) : Z := match w with Bits32 => 4 | _ => 8 end.
+(* prints [len] stack bytes; `offset += chunk_size` is an unchecked usize addition *)
+Fixpoint stack_print (p : profile) (fuel : nat) (w : ptr_width) (remaining offset : Z) : res unit :=
+  if remaining <? chunk_size w then Ok tt
+  else match fuel with
+       | O => NoFuel
+       | S fuel' =>
+           if chunk_size w =? array_len w then
+             rbind (of_chk (chk_add p 64 PANIC_PRINT_OFFSET offset (chunk_size w))) (fun o =>
+             stack_print p fuel' w (remaining - chunk_size w) o)
+           else Pan PANIC_CHUNK_UNWRAP
+       end.
+(* MinidumpMemory::print_contents: 16-byte paragraphs, `offset += 16` *)
+Fixpoint hexdump_print (p : profile) (fuel : nat) (remaining offset : Z) : res unit :=
+  if remaining <=? 0 then Ok tt
+  else match fuel with
+       | O => NoFuel
+       | S fuel' =>
+           rbind (of_chk (chk_add p 64 PANIC_PRINT_OFFSET offset 16)) (fun o =>
+           hexdump_print p fuel' (remaining - 16) o)
+       end.
+
 (* ---- Minidump::read *)
 Definition MD_SIGNATURE := 1347241037.  (* 'MDMP' 0x504d444d *)
 Definition MD_VERSION := 42899.         (* 0xa793 *)
@@ -741,7 +854,8 @@ Definition get_stream {A} (all : bytes) (ds : list dirent) (ty : Z) (rd : bytes 
 Definition ST_THREAD_LIST := 3.   Definition ST_MODULE_LIST := 4.   Definition ST_MEMORY_LIST := 5.
 Definition ST_EXCEPTION := 6.     Definition ST_SYSTEM_INFO := 7.   Definition ST_MEMORY64_LIST := 9.
 Definition ST_HANDLE_DATA := 12.  Definition ST_UNLOADED := 14.     Definition ST_MEMORY_INFO := 16.
-Definition ST_THREAD_INFO := 17.  Definition ST_THREAD_NAMES := 24.  Definition ST_MISC_INFO := 15.  Definition ST_CRASHPAD := 1129316353.  (* 0x43500001 *)
+Definition ST_THREAD_INFO := 17.  Definition ST_THREAD_NAMES := 24.  Definition ST_MISC_INFO := 15.  Definition ST_BREAKPAD := 1197932545.  Definition ST_ASSERTION := 1197932546.
+Definition ST_MAC_CRASH := 1299841025.  Definition ST_MAC_BOOT := 1299841026.  Definition ST_MOZ_SOFT := 1299841028.  Definition ST_CRASHPAD := 1129316353.  (* 0x43500001 *)
 Definition ST_LINUX_CPU := 1197932547.    (* 0x47670003 *)
 Definition ST_LINUX_STATUS := 1197932548. Definition ST_LINUX_LSB := 1197932549.  Definition ST_LINUX_ENVIRON := 1197932551.
 Definition ST_MOZ_LIMITS := 1299841027.   (* 0x4d7a0003 *)
